@@ -402,6 +402,32 @@ def _one_volume(rep, model):
             return 'norm(one)^2 = %r, the volume is %r' % (g2, vol)
     guarded(rep, 'R3', 'norm(one)^2 = volume', f, DSP)
 
+    def g():
+        # the same with unit cell sides: the default weight (the cell
+        # volume) is then exactly 1.0 and the tensor space reports
+        # `is_weighted == False` (NumpyTensorSpace.is_weighted: "not weighted
+        # by constant 1.0")
+        H0 = WH(PA.Signs({'h0', 'h1'}))
+        I0 = WI(model, {}, H0)
+        fr, axes = _fractions_of(model, I0, [3, 2])
+        unit = {'h0': Rat.const(1), 'h1': Rat.const(1)}
+        fracs = [tuple(to_rat(v).subs(unit) for v in ax) for ax in fr]
+        shape = (3, 2)
+        I, H, sp, x, y, signs = discr_config(model, Fr(2), shape, fracs)
+        sp.attrs['tspace'].attrs['is_weighted'] = False
+        x.data.a.fill(Rat.const(1))
+        got = scalar(call(I, sp, '_norm', x))
+        vol = Rat.const(1)
+        for cvec, bmin, bmax, h in axes:
+            vol = vol * (bmax - bmin)
+        g2 = PA.reduce_full(got * got).subs({'cv': Rat.const(1)})
+        if not (PA.reduce_full(g2) - vol).n.is_zero():
+            return ('with unit cell sides (default weight exactly 1.0, '
+                    'tspace.is_weighted False) norm(one)^2 = %r, the volume '
+                    'is %r: the boundary cell fractions are not applied'
+                    % (g2, vol))
+    guarded(rep, 'R3', 'norm(one)^2 = volume[unit cell volume]', g, DSP)
+
 
 class UH(WH):
     def __init__(self):
